@@ -243,6 +243,7 @@ type thrOut struct {
 	Res     int   `json:"res"` // 0 ok, else error enum
 	Map     int   `json:"map"` // caller index owning the returned mapping (ok activations), -1 none, -2 unknown id
 	Trace   []int `json:"trace"`
+	Pos     []int `json:"pos"` // index in the executed schedule of each storage action of the trace
 	First   int   `json:"first"` // index in the executed schedule of this caller's first storage action (-1: none)
 	Done    int   `json:"done"`  // index of the entry after which it had returned (-1: returned before any action)
 	Faulted bool  `json:"faulted"`
@@ -456,6 +457,7 @@ func runSched(c caseIn) *caseOut {
 	}
 	first := make([]int, n)
 	doneAt := make([]int, n)
+	positions := make([][]int, n)
 	for i := 0; i < n; i++ {
 		first[i], doneAt[i] = -1, -1
 		if i == tickIdx {
@@ -487,6 +489,7 @@ func runSched(c caseIn) *caseOut {
 			first[i] = pos
 		}
 		parked[i] = false
+		positions[i] = append(positions[i], pos)
 		g.resume[i] <- struct{}{}
 		settle(i)
 		if finished[i] {
@@ -603,7 +606,7 @@ func runSched(c caseIn) *caseOut {
 	out.ClaimSet, _ = raw.Exists(claimPrefix + cc.Code)
 
 	for i, t := range c.Threads {
-		to := thrOut{Res: 0, Map: -1, Trace: []int{}, First: first[i], Done: doneAt[i]}
+		to := thrOut{Res: 0, Map: -1, Trace: []int{}, Pos: []int{}, First: first[i], Done: doneAt[i]}
 		if t.Kind == "tick" {
 			to.Res = 0
 			if out.Ticked {
@@ -614,6 +617,7 @@ func runSched(c caseIn) *caseOut {
 		}
 		to.Res = errEnum(results[i])
 		to.Trace = append(to.Trace, stores[i].trace...)
+		to.Pos = append(to.Pos, positions[i]...)
 		to.Faulted = stores[i].faulted
 		if t.Kind == "act" && results[i] == nil {
 			to.Map = ownerOf(mapIDs[i])
@@ -714,6 +718,32 @@ func runSched(c caseIn) *caseOut {
 		for r, t := range c.Threads {
 			if t.Kind == "rev" && out.Threads[r].Res == 0 && out.Threads[r].Done >= 0 && out.Threads[r].Done < fa {
 				add("dead-code-activated", "caller %d activated the code although revocation by caller %d had completed before its first action", a, r)
+			}
+		}
+	}
+	// revocation against activation: a revocation that returned nil after writing the revoked record (its last storage
+	// action is the Set of the by-id record; a nil return through Update's delete branch on an already expired code
+	// writes nothing and is not counted) and an activation of the same code must never both succeed
+	for r, t := range c.Threads {
+		tr := out.Threads[r].Trace
+		if t.Kind != "rev" || out.Threads[r].Res != 0 || len(tr) == 0 || tr[len(tr)-1] != opSetID {
+			continue
+		}
+		for _, a := range oks {
+			ta := out.Threads[a]
+			gatePos := -1 // the activator's point of no return: its Claim (or, without a claim, its first write)
+			for k, op := range ta.Trace {
+				if (op == opClaim || op == opSetMain) && k < len(ta.Pos) {
+					gatePos = ta.Pos[k]
+					break
+				}
+			}
+			if gatePos > out.Threads[r].Done {
+				add("revoked-code-activated", "caller %d revoked the code (returned nil, record written, done at schedule entry %d); caller %d, which had read the code earlier (entry %d), passed its claim/first write at entry %d afterwards and its activation succeeded: a revoked code created a mapping",
+					r, out.Threads[r].Done, a, ta.First, gatePos)
+			} else {
+				add("revoke-and-activation-both-succeeded", "revocation by caller %d and activation by caller %d of the same code both returned success (revocation done at entry %d, activator's claim/first write at entry %d)",
+					r, a, out.Threads[r].Done, gatePos)
 			}
 		}
 	}
